@@ -574,9 +574,26 @@ func (sg *skGen) genGeneralHistory(maxN int, exact bool) {
 	}
 	// C15: a cleared sketch is compared with a fresh twin fed the same later history
 	twin := map[int]int{}
+	// C14 (round 11, seeded change C14f): a QUIET twin of sketch 1 receives every mutation of sketch 1 and is never
+	// read before the end of the history; a read that changes a later answer makes the two differ (`same`), whatever
+	// the model says
+	quiet := map[int]int{}
+	if sg.prop == "C14" && r.Bool(50) {
+		e := sg.sh.sks[1]
+		spec := e.storeKind
+		if e.n > 0 {
+			spec = fmt.Sprintf("%s %d", e.storeKind, e.n)
+		}
+		sg.line("K 30 1 %s%s", spec, x)
+		quiet[1] = 30
+		sg.g.stats["quiet-twin"]++
+	}
 	apply := func(h int, f func(h int)) {
 		f(h)
 		if t, ok := twin[h]; ok {
+			f(t)
+		}
+		if t, ok := quiet[h]; ok {
 			f(t)
 		}
 	}
@@ -596,7 +613,8 @@ func (sg *skGen) genGeneralHistory(maxN int, exact bool) {
 			o := live[r.Intn(len(live))]
 			if o == h {
 				// a sketch merged into itself (it doubles), now and then, when no twin follows it
-				if _, hasTwin := twin[h]; hasTwin || !r.Bool(30) {
+				_, hasQuiet := quiet[h]
+				if _, hasTwin := twin[h]; hasTwin || hasQuiet || !r.Bool(30) {
 					continue
 				}
 			}
@@ -637,6 +655,9 @@ func (sg *skGen) genGeneralHistory(maxN int, exact bool) {
 		case 3:
 			sg.line("clear %d", h)
 			delete(twin, h)
+			if q, ok := quiet[h]; ok {
+				sg.line("clear %d", q)
+			}
 			if sg.prop == "C15" || r.Bool(30) {
 				e := sg.sh.sks[h]
 				t := 10 + h
@@ -665,6 +686,33 @@ func (sg *skGen) genGeneralHistory(maxN int, exact bool) {
 		if sg.prop == "C14" && r.Bool(30) {
 			sg.ensureValues(h)
 			sg.encchk(h, r.Bool(50)) // Encode is a read-only operation too
+		}
+		if sg.prop == "C14" && r.Bool(5) {
+			// refill: k unit entries (out of order), an ordering read, Clear, exactly k unit entries again, a read —
+			// a cache keyed on the buffer length that a read fills and Clear forgets to reset shows here
+			if _, isTwin := twin[h]; !isTwin {
+				k := r.Range(2, 9)
+				burst := func() {
+					for j := 0; j < k; j++ {
+						v := sg.nextValue()
+						apply(h, func(h int) { sg.add(h, v, 1) })
+					}
+				}
+				clr := func() {
+					sg.line("clear %d", h)
+					if q, ok := quiet[h]; ok {
+						sg.line("clear %d", q)
+					}
+				}
+				clr()
+				burst()
+				sg.queries(h, 2)
+				clr()
+				burst()
+				sg.queries(h, 3)
+				sg.obs(h)
+				sg.g.stats["refill-after-read"]++
+			}
 		}
 		if sg.prop == "C15" && r.Bool(3) {
 			// a refused decode leaves the target in an unspecified state; Clear() must make it new again
@@ -725,6 +773,10 @@ func (sg *skGen) genGeneralHistory(maxN int, exact bool) {
 		sg.obs(h)
 		sg.queries(h, 8)
 		if t, ok := twin[h]; ok {
+			sg.ensureValues(t)
+			sg.line("same %d %d", h, t)
+		}
+		if t, ok := quiet[h]; ok {
 			sg.ensureValues(t)
 			sg.line("same %d %d", h, t)
 		}
